@@ -201,7 +201,7 @@ written bytes, and the compressed ciphertext the receiver then stands for — he
 limbs decoded from the bytes — is the sender's, so `decompress_glwe` produces the same ciphertext. -/
 theorem glwe_compressed_serialise_decompress (expand : List Nat → List Nat) (b r : Nat) (sd : Bytes) (xv rv : VecZnx) (tail : Bytes)
     (p : Profile) (mem : Nat) (hb : b < 2 ^ 32) (hr : r < 2 ^ 32) (hsd : sd.length = 32) (f0 f1 : Nat) (g0 : SeedGroup)
-    (hw : C18.VecWF xv) (hi : xv.Inv) (hcap : xv.n * xv.cols * xv.maxSize * 8 ≤ rv.data.length) :
+    (hw : Ser.VecWF xv) (hi : xv.Inv) (hcap : xv.n * xv.cols * xv.maxSize * 8 ≤ rv.data.length) :
     ∃ bs rs', wGLWECompressed p ⟨[b, r], [⟨1, sd⟩], [.vec xv], mem⟩ origin = .ok bs ∧
       rGLWECompressed origin ⟨[f0, f1], [g0], [.vec rv], mem⟩ (bs ++ tail) = .ok () rs' tail ∧
       glweOfState expand rs' = glweOfState expand ⟨[b, r], [⟨1, sd⟩], [.vec xv], mem⟩ ∧
@@ -217,9 +217,9 @@ theorem glwe_compressed_serialise_decompress (expand : List Nat → List Nat) (b
   exact ⟨bs, _, h1, h2, heq, by rw [heq]⟩
 
 open Ser CoreSer in
-example : C18.VecWF ⟨2, 1, 1, 1, List.replicate 16 1⟩ ∧ VecZnx.Inv ⟨2, 1, 1, 1, List.replicate 16 1⟩ ∧
+example : Ser.VecWF ⟨2, 1, 1, 1, List.replicate 16 1⟩ ∧ VecZnx.Inv ⟨2, 1, 1, 1, List.replicate 16 1⟩ ∧
     (glweOfState (fun s => s ++ [5, 6, 7]) ⟨[3, 1], [⟨1, List.replicate 32 2⟩], [.vec ⟨2, 1, 1, 1, List.replicate 16 1⟩], 0⟩).isSome := by
-  unfold C18.VecWF VecZnx.Inv; decide
+  unfold Ser.VecWF VecZnx.Inv; decide
 
 open Ser CoreSer in
 /-- **`GGLWECompressed` / `GGSWCompressed`: serialise, deserialise, then decompress = decompress, cell by cell.**
@@ -230,7 +230,7 @@ theorem gglwe_compressed_serialise_decompress (expand : List Nat → List Nat) (
     (k b ds ro cnt : Nat) (sb : Bytes) (xm rm : MatZnx) (tail : Bytes) (p : Profile) (mem : Nat)
     (hk : k < 2 ^ 32) (hb : b < 2 ^ 32) (hds : ds < 2 ^ 32) (hro : ro < 2 ^ 32) (hcnt : cnt < 2 ^ 32) (hcnt0 : 0 < cnt)
     (hsb : sb.length = 32 * cnt) (hmem : cnt * 32 ≤ mem)
-    (f0 f1 f2 f3 : Nat) (g0 : SeedGroup) (hw : MatWF xm)
+    (f0 f1 f2 f3 : Nat) (g0 : SeedGroup) (hw : CoreSer.MatWF xm)
     (hx : xm.rows * xm.colsIn * xm.n * xm.colsOut * xm.size * 8 ≤ xm.data.length)
     (hcap : xm.rows * xm.colsIn * xm.n * xm.colsOut * xm.size * 8 ≤ rm.data.length) :
     ∃ bs rs', wGGLWECompressed p ⟨[k, b, ds, ro], [⟨cnt, sb⟩], [.mat xm], mem⟩ origin = .ok bs ∧
@@ -247,9 +247,9 @@ theorem gglwe_compressed_serialise_decompress (expand : List Nat → List Nat) (
   exact ⟨bs, _, h1, h2, heq, by rw [heq]⟩
 
 open Ser CoreSer in
-example : MatWF ⟨2, 1, 1, 2, 1, List.replicate 32 1⟩ ∧
+example : CoreSer.MatWF ⟨2, 1, 1, 2, 1, List.replicate 32 1⟩ ∧
     (cellsOfState ⟨[6, 3, 1, 1], [⟨2, List.replicate 64 2⟩], [.mat ⟨2, 1, 1, 2, 1, List.replicate 32 1⟩], 64⟩).map List.length = some 2 := by
-  unfold MatWF; decide
+  unfold CoreSer.MatWF; decide
 
 /-! ### the GGLWE→GGSW key: two levels of branching -/
 
